@@ -864,12 +864,17 @@ let () = register "c16" (fun line ->
   let outs = ref [] in
   L.iter (fun op ->
     let num () = n_of_int (int_of_string (S.sub op 1 (S.length op - 1))) in
-    let o = match op with
-      | "up" -> Some Discovery.DStreamUp
-      | "down" -> Some Discovery.DStreamDown
-      | "f" -> Some Discovery.DFlush
-      | _ -> if Stdlib.String.get op 0 = 's' then Some (Discovery.DSubscribe (num ())) else Some (Discovery.DUnsubscribe (num ())) in
-    (match o with Some o -> st := Discovery.dstep false !st o | None -> ());
+    let os = match op with
+      | "RUN" -> []
+      | "up" -> [Discovery.DStreamUp]
+      | "down" | "downc" -> [Discovery.DStreamDown]
+      | "f" -> [Discovery.DFlush]
+      | _ ->
+        (match Stdlib.String.get op 0 with
+         | 's' -> [Discovery.DSubscribe (num ())]
+         | 'U' -> [Discovery.DStreamUp; Discovery.DSubscribe (num ())]
+         | _ -> [Discovery.DUnsubscribe (num ())]) in
+    L.iter (fun o -> st := Discovery.dstep false !st o) os;
     if op = "f" then
       outs := (match !st.Discovery.stream with
                | None -> "nostream"
@@ -911,6 +916,16 @@ let () = register "c09" (fun line ->
     let s = Stats.srun (z_of_int lim) ([Stats.SvConnect; Stats.SvFinish] @ L.init k (fun _ -> Stats.SvConnect)) in
     Printf.sprintf "served=%d refused=%d" (int_of_z s.Stats.cx_total - 1) (int_of_z s.Stats.cx_restricted)
   | "stop-while-binding" -> report "" (run [LServeBegin; LBindFail; LBindFail; LStop])
+  | "drain-while-binding" ->
+    (* whichever way the round in progress ends, the service must not begin to serve *)
+    let a = run [LServeBegin; LBindFail; LDrain; LBindOk] and b = run [LServeBegin; LBindFail; LDrain; LBindFail] in
+    let refused s = (lstep true s LAccept) = s && not s.bound in
+    if refused a && refused b then report "drain=ok new=refused " (lstep true a LStop) else "MODEL: serves after drain"
+  | "drain-during-bind" | "stop-during-bind" ->
+    (* the flag is set after the loop's check and before the socket is published: the bind round that succeeds must give up *)
+    let s = run [LServeBegin; (if sc = "stop-during-bind" then LStop else LDrain); LBindOk] in
+    Printf.sprintf "serve-returned=%b port-open=%b" (s.phase = PReturned) s.bound
+  | "stop-halfclosed-silent" -> report "" (run ([LServeBegin; LBindOk; LAccept; LStop]))
   | "stop-before-start" -> report "" (run [LStop])
   | "stop-active" | "stop-backend-down" | "stop-silent-backend" -> report "" (run ([LServeBegin; LBindOk] @ accepts @ [LStop]))
   | "drain-then-stop" ->
